@@ -200,7 +200,7 @@ let rec parse_ty c : ty =
     | t -> failwith ("bad ty " ^ t)
   end else
     match word c with
-    | "b" -> TBool | "i" -> TInt | "f" -> TFloat | "s" -> TStr | "A" -> TAny
+    | "b" -> TBool | "i" -> TInt false | "I" -> TInt true | "f" -> TFloat | "s" -> TStr | "A" -> TAny
     | t -> failwith ("bad ty word " ^ t)
 and parse_field c : field =
   expect c '(';
